@@ -200,6 +200,18 @@ Checks that were strengthened because a seeded change (or the triage of one) sho
   of the CONNECT answer; that workload fired on the *unchanged* tree (same weakness, narrower window), which was repaired
   (`d4d9a37`, section 6.1), and the repair neutralises the seeded change. C12-12 (custom best-fit table assumed sorted) was caught
   only because the table had been added to `en_c12`'s lattice an hour earlier.
+* **Round 13** (10 more, for the properties whose checks had missed most often; 5 not caught at first): **C02-13** (the port text of
+  a CONNECT to a bracketed IPv6 literal keeps its colon, so the transaction's port is -1) - C02 had no CONNECT at all; a directed
+  slice sends CONNECTs to names, IPv4 and IPv6 literals with ports and compares method, target, host, port and status; **C04-13**
+  (the tunnel probe decides on a first word cut by the chunk end) - C04's CONNECT exchanges may now be accepted (200) when other
+  exchanges follow, which then travel as plain HTTP through the tunnel; **C08-13** (the extraction-limit test walks all parts for
+  every file part) - multipart families with file extraction switched on (limits 2 and 16; every multipart family had run with
+  extraction off); **C11-13** (Host parse result cached per connection, the invalid-host indicator not part of the cache) - every
+  trigger with well-defined framing is also sent three times on one keep-alive connection, byte for byte; **C13-13** (a response
+  that arrives in the middle of the request line pre-allocates `parsed_uri`, after which normalisation is skipped) - a fifth of
+  `en_c13`'s end-to-end targets are cut inside the request line with a 408 answer in between. While re-running C11 beside other
+  work the check took six minutes instead of ten seconds: every observation of the folded-Content-Length known finding wrote a
+  replay file (45 000 of them, deleted again at the next start) - a process now keeps at most three replay files per violation key.
 * **C08-1/2, C19-1/2** were the acceptance tests of the two checks built last; C19-1 (a process-wide decompression buffer) is
   invisible to ThreadSanitizer because zlib does the writes, and is caught by the solo-vs-shared dump comparison under baton
   interleavings; C19-2 (self-organising best-fit map) is caught by the deep configuration hash and by TSan.
